@@ -496,6 +496,10 @@ class EvalMixin:
             if full in getattr(self, "external_consts", {}):
                 return self.external_consts[full]
             return ExternalRef(v.full, name)
+        if isinstance(v, BuiltinFn) and v.name in ("set", "dict", "list", "str", "tuple", "frozenset"):
+            # unbound method of a builtin type: set.union(a, b, ...) == a.union(b, ...)
+            return BuiltinFn(f"{v.name}.{name}", lambda interp, args, kwargs, _n=name:
+                             interp.call(interp.getattr(args[0], _n), list(args[1:]), kwargs))
         if isinstance(v, SliceVal):
             if name in ("start", "stop", "step"):
                 return getattr(v, name)
